@@ -140,6 +140,9 @@ type Conn struct {
 }
 
 // Net is the simulated network of one run.
+// netIOSync: see Conn.Write (the analogue of internal/poll's ioSync).
+var netIOSync uint64
+
 type Net struct {
 	w         *World
 	listeners map[string]*Listener
@@ -383,6 +386,9 @@ func (c *Conn) Write(b []byte) (int, error) {
 	// tap: the sender's view, before any fault
 	p.tapFeed(w, b)
 	c.n.LastData = time.Now()
+	// race builds: like internal/poll, every socket write happens-before every later socket
+	// read (what was done before sending a message is ordered before what its receipt causes)
+	simrt.HBRelease(&netIOSync)
 	total := 0
 	for len(b) > 0 {
 		for p.used() >= p.capacity && !p.rst && !p.discard && !c.closed && !deadlinePassed(c.wdl) {
@@ -540,6 +546,7 @@ func (c *Conn) Read(b []byte) (int, error) {
 			}
 			p.consumed += int64(n)
 			c.n.LastData = time.Now()
+			simrt.HBAcquire(&netIOSync)
 			p.noteConsumed(c.n.w)
 			p.q.WakeAll() // a writer may be waiting for room
 			return n, nil
@@ -551,6 +558,7 @@ func (c *Conn) Read(b []byte) (int, error) {
 			return 0, errReset
 		}
 		if p.fin {
+			simrt.HBAcquire(&netIOSync) // (a read returning 0 without error acquires as well)
 			return 0, io.EOF
 		}
 		if deadlinePassed(c.rdl) {
